@@ -172,16 +172,28 @@ class Exec:
         self.unroll_limit = 4096
         self.foralls = []        # universally quantified facts: functions index-term -> z3 Bool
         self.index_terms = []    # terms at which they are instantiated
+        self.index_shifts = [0]
 
     def add_forall(self, f):
         self.foralls.append(f)
         for t in self.index_terms:
-            self.assume(f(t))
+            for sh in self.index_shifts:
+                self.assume(f(t - sh if not (isinstance(sh, int) and sh == 0) else t))
 
     def add_index_term(self, t):
         self.index_terms.append(t)
         for f in self.foralls:
-            self.assume(f(t))
+            for sh in self.index_shifts:
+                self.assume(f(t - sh if not (isinstance(sh, int) and sh == 0) else t))
+
+    def add_index_shift(self, sh):
+        """an offset by which indices are translated (concatenation): universal facts are also instantiated at t - sh"""
+        if isinstance(sh, int) and sh == 0:
+            return
+        self.index_shifts.append(sh)
+        for f in self.foralls:
+            for t in self.index_terms:
+                self.assume(f(t - sh))
 
     # ------------------------------------------------------------ solver helpers
     def _solver(self):
@@ -1005,11 +1017,7 @@ class Exec:
             m = self.get_method(a, '__getitem__')
             if m is None:
                 raise SymRaise('TypeError')
-            if isinstance(idx, SliceV):
-                idx = ('pyslice', idx)
             return self.call(m, [idx], {})
-        if isinstance(a, tuple) and a and a[0] == 'pyslice':
-            raise Unsupported('subscript of slice')
         if isinstance(a, (Arr, np.ndarray)):
             return arrays.getitem(self, a, idx)
         if isinstance(a, dict):
